@@ -58,6 +58,9 @@ func subjects(name, bounds string) []gen.Subject {
 		}
 		return out
 	case "dispatch":
+		if bounds == "d2+core3" {
+			return gen.DispatchFamilyCore3()
+		}
 		var d int
 		fmt.Sscanf(bounds, "d%d", &d)
 		return gen.DispatchFamily(d)
